@@ -97,6 +97,22 @@ func circleCase(o *out.W, i int, r *rng.R) {
 		// choose a diameter so that the scaled circle is known: end opposite to start
 		end = P{X: c.X - float64(j*d0[0])*unit, Y: c.Y - float64(j*d0[1])*unit}
 	}
+	if fam == "circle-radius-scaled" {
+		// Path.ArcTo corrects radii that are too small when the path is built; flattenEllipticArc relies on that.
+		// Go through the builder and hand the corrected radii to the flattener, as Path.Flatten does.
+		bp := &canvas.Path{}
+		bp.MoveTo(start.X, start.Y)
+		bp.ArcTo(rGiven, rGiven, phi*180/math.Pi, large, sweep, end.X, end.Y)
+		segs, err := pd.Decode(bp.Data())
+		if err != nil || len(segs) != 2 || segs[1].Cmd != 'A' {
+			return
+		}
+		rGiven = segs[1].A[0]
+		if segs[1].A[1] != rGiven {
+			return
+		}
+		phi = segs[1].A[2]
+	}
 	for _, tol := range tols {
 		var p *canvas.Path
 		var cx, cy float64
@@ -160,7 +176,16 @@ func ellipseCase(o *out.W, i int, r *rng.R) {
 	start, end := pos(d0), pos(d1)
 	large, sweep := r.Bool(), r.Bool()
 	var bz [][4]P
-	pmsg := safe(func() { bz = canvas.VerifEllipseToCubicBeziers(start, rx, ry, phi, large, sweep, end) })
+	var gcx, gcy float64
+	pmsg := safe(func() {
+		bz = canvas.VerifEllipseToCubicBeziers(start, rx, ry, phi, large, sweep, end)
+		gcx, gcy, _, _ = canvas.VerifEllipseToCenter(start.X, start.Y, rx, ry, phi, large, sweep, end.X, end.Y)
+	})
+	// start, end, radii and rotation leave two candidate centres; the flags pick one. The centre the code computed is
+	// part of the certificate (relational model): the conic through it must pass through every emitted cubic.
+	if pmsg == "" && !math.IsNaN(gcx) && !math.IsNaN(gcy) {
+		c = P{X: gcx, Y: gcy}
+	}
 	ok := pmsg == "" && len(bz) > 0
 	var cubs []string
 	for _, b := range bz {
